@@ -7,8 +7,10 @@
     sig.val0 ; <items>   -> f(0+)          sig.valinf ; <items> -> lim f(t), t -> oo (formal)
 
   numbers: `p/q` or `p/q,r/t` (real,imag).   items: `pre c k p` | `ep c k p d` | `dl c n d`.
-  raw term: `prod c <atoms>` | `undef c a b` | `undefExp c a` | `dundef c n` | `iundef c` | `convXY c` | `convExpX c a`
-  atoms: `tpow k` `lin a b` `exp a` `sin w ph` `cos w ph` `sinh a` `cosh a` `step a b` `delta n a b`
+  raw term: `prod c <atoms>` | `undef c a b` | `undefExp c a` | `dundef c n` | `dundefAt c n a b` | `deltaX c a b` | `iundef c`
+            | `convXY c` | `convExpX c a`
+    sig.at <s> <T0> <w> <g> <v> <g2> <u> ; <items> ; <tau>   -> value x(tau) of the regular part of a signal (evalAt)
+  atoms: `tpow k` `lin a b` `exp a` `expb a b` `sin w ph` `cos w ph` `sinh a` `cosh a` `step a b` `delta n a b`
          `rect a b` `tri a b` `ramp a b` `rampstep a b`.
 
   The exponential stand-in `E` is the partial group homomorphism
@@ -99,6 +101,7 @@ partial def parseAtoms (l : List String) (acc : List (Atom GQ)) : Option (List (
   | "tpow" :: k :: rest => do let k ← k.toNat?; parseAtoms rest (acc ++ [.tpow k])
   | "lin" :: a :: b :: rest => do let a ← parseGQ a; let b ← parseGQ b; parseAtoms rest (acc ++ [.lin a b])
   | "exp" :: a :: rest => do let a ← parseGQ a; parseAtoms rest (acc ++ [.exp a])
+  | "expb" :: a :: b :: rest => do let a ← parseGQ a; let b ← parseGQ b; parseAtoms rest (acc ++ [.expb a b])
   | "sin" :: w :: ph :: rest => do let w ← parseGQ w; let ph ← parseGQ ph; parseAtoms rest (acc ++ [.trig false w ph])
   | "cos" :: w :: ph :: rest => do let w ← parseGQ w; let ph ← parseGQ ph; parseAtoms rest (acc ++ [.trig true w ph])
   | "sinh" :: a :: rest => do let a ← parseGQ a; parseAtoms rest (acc ++ [.hyp false a])
@@ -118,6 +121,9 @@ def parseRaw (l : List String) : Option (Raw GQ) :=
   | ["undef", c, a, b] => do let c ← parseGQ c; let a ← parseGQ a; let b ← parseGQ b; some (.undef c a b)
   | ["undefExp", c, a] => do let c ← parseGQ c; let a ← parseGQ a; some (.undefExp c a)
   | ["dundef", c, n] => do let c ← parseGQ c; let n ← n.toNat?; some (.dundef c n)
+  | ["dundefAt", c, n, a, b] => do
+      let c ← parseGQ c; let n ← n.toNat?; let a ← parseGQ a; let b ← parseGQ b; some (.dundefAt c n a b)
+  | ["deltaX", c, a, b] => do let c ← parseGQ c; let a ← parseGQ a; let b ← parseGQ b; some (.deltaX c a b)
   | ["iundef", c] => do let c ← parseGQ c; some (.iundef c)
   | ["convXY", c] => do let c ← parseGQ c; some (.convXY c)
   | ["convExpX", c, a] => do let c ← parseGQ c; let a ← parseGQ a; some (.convExpX c a)
@@ -156,6 +162,13 @@ def handle (toks : List String) : Option String :=
         match parseEPar envT, parseItems xT [] [] with
         | some ep, some (_, post) => toString (L (mkE ep) post (GQ.ofRat ep.s))
         | _, _ => "bad-op"
+      | _ => "bad-op"
+  | "sig.at" :: rest => some <| Id.run do
+      match splitOn ";" rest with
+      | [envT, xT, [tau]] =>
+        match parseEPar envT, parseItems xT [] [], parseGQ tau with
+        | some ep, some (_, post), some tau => toString (evalAt (mkE ep) post tau)
+        | _, _, _ => "bad-op"
       | _ => "bad-op"
   | _ => none
 
